@@ -476,6 +476,164 @@ func (g *c14Group) run(dir string) (line string) {
 	return fmt.Sprintf("%s now=%d n=%d subs=%s snap=%s sent=%s", head, uint64(now), expected, c14Join(subs), c14Join(snap), c14Join(sent))
 }
 
+// ---------------------------------------------------------------- submissions across a restart
+
+// c14Restart: submissions of ONE (source, creation time) before and after an orderly restart (Close + NewCore on the
+// same store directory; the IdKeeper starts empty, the store does not).
+//   variant "nogap": b0, b1 are submitted with nobody connected (stored as #0, #1); restart; k2 further ones.
+//   variant "gap":   b0 is stored, b1 is delivered directly to its destination (and deleted), b2 is stored; restart;
+//                    k2 further ones. The number of the delivered bundle is free in the store.
+// The submissions after the restart happen one after the other (conc = false) or from k2 goroutines.
+// Finally a neighbour appears and everything stored leaves the node. Same observations as c14Group.run.
+func c14Restart(dir, variant, tkind string, k2 int, conc bool, idx int) (line string) {
+	mode := "seq"
+	if conc {
+		mode = "conc"
+	}
+	head := fmt.Sprintf("rst %s %s %s %d", variant, mode, tkind, k2)
+	defer func() {
+		if r := recover(); r != nil {
+			line = head + " panic " + strings.ReplaceAll(fmt.Sprint(r), " ", "_")
+		}
+	}()
+	net := &verifNet{}
+	var lmu sync.Mutex
+	look := map[string]string{}
+	own := bpv7.MustNewEndpointID(c14Node)
+	var c *Core
+	open := func() error {
+		var err error
+		c, err = verifNewCore(dir, c14Node, RoutingConf{Algorithm: "epidemic"})
+		if err == nil && verifC14Quiesce != nil {
+			verifC14Quiesce(c)
+		}
+		return err
+	}
+	if err := open(); err != nil {
+		return head + " error newcore"
+	}
+	defer func() { c.Close() }()
+	mk := func(name, peer string, ok bool) *c14CLA {
+		return &c14CLA{verifMockCLA: net.newCLA(name, bpv7.MustNewEndpointID(peer), ok), core: c, mu: &lmu, look: look}
+	}
+	now := bpv7.DtnTimeNow()
+	t := time.Now()
+	var subs, delivered []string
+	n := 0
+	submit := func(dst string) *bpv7.Bundle {
+		payload := fmt.Sprintf("c14-r%d-b%d", idx, n)
+		n++
+		b, err := c14Bundle(c14Node, dst, tkind, t, 0, payload)
+		if err != nil {
+			panic("build")
+		}
+		subs = append(subs, c14Tag([]byte(payload))+"|"+c14Id(b.ID()))
+		return &b
+	}
+	// --- before the restart
+	c.SendBundle(submit(c14Far))
+	if variant == "gap" {
+		d := mk("n2", c14DestN, true)
+		c.claManager.Register(d)
+		c.routing.ReportPeerAppeared(d)
+		c.checkPendingBundles() // b0 (for a far node) is offered to the new peer and stays stored
+		b := submit(c14Dest)   // b1 is for this peer's node: delivered and deleted
+		delivered = append(delivered, strings.Split(subs[len(subs)-1], "|")[0])
+		c.SendBundle(b)
+		c.claManager.Unregister(d)
+		c.routing.ReportPeerDisappeared(d)
+	}
+	c.SendBundle(submit(c14Far))
+	// --- restart
+	c.Close()
+	if err := open(); err != nil {
+		return head + " error reopen"
+	}
+	// --- after the restart
+	var bs []*bpv7.Bundle
+	for i := 0; i < k2; i++ {
+		bs = append(bs, submit(c14Far))
+	}
+	if conc {
+		var wg sync.WaitGroup
+		start := make(chan struct{})
+		for _, b := range bs {
+			wg.Add(1)
+			go func(b *bpv7.Bundle) {
+				defer wg.Done()
+				<-start
+				c.SendBundle(b)
+			}(b)
+		}
+		close(start)
+		wg.Wait()
+	} else {
+		for _, b := range bs {
+			c.SendBundle(b)
+		}
+	}
+	// --- observations
+	isOurs := func(id bpv7.BundleID) bool { return own.SameNode(id.SourceNode) }
+	var sent []string
+	collect := func(phase int) {
+		for _, s := range net.drain(true) {
+			b, err := bpv7.ParseBundle(strings.NewReader(string(s.Bytes)))
+			if err != nil {
+				sent = append(sent, fmt.Sprintf("%d|%s|unparsable|-|-", phase, s.Peer))
+				continue
+			}
+			id := b.ID()
+			if !isOurs(id) {
+				continue
+			}
+			tag := c14PayloadTag(&b)
+			lmu.Lock()
+			lk := look[s.Peer+"|"+c14Id(id)+"|"+tag]
+			lmu.Unlock()
+			if lk == "" {
+				lk = "?"
+			}
+			sent = append(sent, fmt.Sprintf("%d|%s|%s|%s|%s", phase, s.Peer, c14Id(id), tag, lk))
+		}
+	}
+	snapshot := func() []string {
+		var out []string
+		if bis, err := c.store.QueryPending(); err == nil {
+			for _, bi := range bis {
+				if !isOurs(bi.BId) || len(bi.Parts) == 0 {
+					continue
+				}
+				key := c14Id(bi.BId)
+				f, err := os.Open(bi.Parts[0].Filename)
+				if err != nil {
+					out = append(out, key+"|unreadable|-")
+					continue
+				}
+				sb, err := bpv7.ParseBundle(f)
+				f.Close()
+				if err != nil {
+					out = append(out, key+"|unparsable|-")
+					continue
+				}
+				out = append(out, key+"|"+c14Id(sb.ID())+"|"+c14PayloadTag(&sb))
+			}
+		}
+		sort.Strings(out)
+		return out
+	}
+	collect(1)
+	snap := snapshot()
+	// a neighbour (not the destination) appears: everything stored leaves the node
+	nb := &c14CLA{verifMockCLA: net.newCLA("n4", bpv7.MustNewEndpointID(c14N4), true), core: c, mu: &lmu, look: look}
+	c.claManager.Register(nb)
+	c.routing.ReportPeerAppeared(nb)
+	c.checkPendingBundles()
+	collect(2)
+	sort.Strings(sent)
+	return fmt.Sprintf("%s now=%d n=%d subs=%s delivered=%s snap=%s sent=%s", head, uint64(now), n, c14Join(subs),
+		c14Join(delivered), c14Join(snap), c14Join(sent))
+}
+
 // ---------------------------------------------------------------- entry
 
 func TestVerifC14(t *testing.T) {
@@ -637,6 +795,27 @@ func TestVerifC14(t *testing.T) {
 	}
 	close(jobs)
 	wg.Wait()
+
+	// submissions across a restart
+	if replay == "" {
+		ri := 0
+		for _, variant := range []string{"nogap", "gap"} {
+			for _, tk := range []string{"epoch", "now"} {
+				for _, conc := range []bool{false, true} {
+					ks := []int{2, 5}
+					if verifThorough() {
+						ks = []int{1, 2, 3, 5, 8}
+					}
+					for _, k2 := range ks {
+						dir := filepath.Join(scratch, fmt.Sprintf("c14-rst-%d-%d", seed, ri))
+						fmt.Fprintln(w, c14Restart(dir, variant, tk, k2, conc, ri))
+						_ = os.RemoveAll(dir)
+						ri++
+					}
+				}
+			}
+		}
+	}
 
 	coincide, reports := 0, 0
 	for _, g := range groups {
